@@ -3,6 +3,7 @@ mod gen;
 mod hist;
 mod mem;
 mod model;
+mod row;
 mod rules;
 mod spec;
 mod thr;
@@ -50,6 +51,7 @@ fn main() {
         "rule" => rules::run(&tier, seed),
         "hist" => hist::run(&tier, seed),
         "thr" => thr::run(&tier, seed),
+        "row" => row::run(&tier, seed),
         _ => {
             eprintln!("unknown engine {engine}");
             std::process::exit(2);
